@@ -49,6 +49,34 @@ EW1 = {
     "tanh": (lambda a: np.tanh(a), lambda g, a, o: g * (1 - o * o)),
     "sqrt": (lambda a: np.sqrt(a), lambda g, a, o: g / (2 * o)),
     "reciprocal": (lambda a: 1 / a, lambda g, a, o: -g * o * o),
+    # the rest of MyGrad's elementwise vocabulary (derivatives written from the calculus, not from
+    # MyGrad's code; the finite-difference self-check of the tape covers them like every other rule)
+    "arccos": (lambda a: np.arccos(a), lambda g, a, o: -g / np.sqrt(1 - a * a)),
+    "arcsin": (lambda a: np.arcsin(a), lambda g, a, o: g / np.sqrt(1 - a * a)),
+    "arctan": (lambda a: np.arctan(a), lambda g, a, o: g / (1 + a * a)),
+    "arccosh": (lambda a: np.arccosh(a), lambda g, a, o: g / np.sqrt(a * a - 1)),
+    "arcsinh": (lambda a: np.arcsinh(a), lambda g, a, o: g / np.sqrt(a * a + 1)),
+    "arctanh": (lambda a: np.arctanh(a), lambda g, a, o: g / (1 - a * a)),
+    "cbrt": (lambda a: np.cbrt(a), lambda g, a, o: g / (3 * o * o)),
+    "cosh": (lambda a: np.cosh(a), lambda g, a, o: g * np.sinh(a)),
+    "sinh": (lambda a: np.sinh(a), lambda g, a, o: g * np.cosh(a)),
+    "tan": (lambda a: np.tan(a), lambda g, a, o: g * (1 + o * o)),
+    "exp2": (lambda a: np.exp2(a), lambda g, a, o: g * o * np.log(2.0)),
+    "expm1": (lambda a: np.expm1(a), lambda g, a, o: g * (o + 1)),
+    "log10": (lambda a: np.log10(a), lambda g, a, o: g / (a * np.log(10.0))),
+    "log2": (lambda a: np.log2(a), lambda g, a, o: g / (a * np.log(2.0))),
+    "log1p": (lambda a: np.log1p(a), lambda g, a, o: g / (1 + a)),
+    "cot": (lambda a: 1 / np.tan(a), lambda g, a, o: -g * (1 + o * o)),
+    "sec": (lambda a: 1 / np.cos(a), lambda g, a, o: g * o * np.tan(a)),
+    "csc": (lambda a: 1 / np.sin(a), lambda g, a, o: -g * o / np.tan(a)),
+    "coth": (lambda a: 1 / np.tanh(a), lambda g, a, o: g * (1 - o * o)),
+    "sech": (lambda a: 1 / np.cosh(a), lambda g, a, o: -g * o * np.tanh(a)),
+    "csch": (lambda a: 1 / np.sinh(a), lambda g, a, o: -g * o / np.tanh(a)),
+    "arccot": (lambda a: np.arctan(1 / a), lambda g, a, o: -g / (1 + a * a)),
+    "arccoth": (lambda a: np.arctanh(1 / a), lambda g, a, o: g / (1 - a * a)),
+    "arccsc": (lambda a: np.arcsin(1 / a), lambda g, a, o: -g / (np.abs(a) * np.sqrt(a * a - 1))),
+    "arcsec": (lambda a: np.arccos(1 / a), lambda g, a, o: g / (np.abs(a) * np.sqrt(a * a - 1))),
+    "arccsch": (lambda a: np.arcsinh(1 / a), lambda g, a, o: -g / (np.abs(a) * np.sqrt(a * a + 1))),
 }
 
 EW2 = {
@@ -62,6 +90,9 @@ EW2 = {
         lambda a, b: np.power(a, b),
         lambda g, a, b, o: (g * b * np.power(a, b - 1), None),
     ),
+    "arctan2": (lambda a, b: np.arctan2(a, b), lambda g, a, b, o: (g * b / (a * a + b * b), -g * a / (a * a + b * b))),
+    "logaddexp": (lambda a, b: np.logaddexp(a, b), lambda g, a, b, o: (g * np.exp(a - o), g * np.exp(b - o))),
+    "logaddexp2": (lambda a, b: np.logaddexp2(a, b), lambda g, a, b, o: (g * np.exp2(a - o), g * np.exp2(b - o))),
 }
 
 
